@@ -295,7 +295,7 @@ def main():
             ck.sample(dict(sql=sql, privacy_unit=pun, params=prm, tau_literal=tau_lit, sigma_literal=sigma_lit, cap="%s %s" % (cap_op, cap_lit), event=ans["ok"]["dp_event_s"].strip()))
     queries, meta = [], {}
     from common import budgeted
-    built, results = budgeted(ck, tasks, build_task, lambda qs: smt.solve_all(qs, tq, workers=14, order=["z3new", "cvc5"], progress=100), tier)
+    built, results = budgeted(ck, tasks, build_task, lambda qs: smt.replayable_models(qs, smt.solve_all(qs, tq, workers=14, order=["z3new", "cvc5"], progress=100), tq, workers=14, order=["z3new", "cvc5"]), tier)
     for res in built:
         if "unsupported" in res:
             stats["unsupported"][res["unsupported"]] = stats["unsupported"].get(res["unsupported"], 0) + 1
